@@ -385,6 +385,28 @@ func Maven(t *kernel.Tape, k Knobs) *uni.Spec {
 		trip[i] = drawTriples(t, t.Range(1, k.MaxVers), 4)
 	}
 	registries := t.Bool(1, 4)
+	drawExcl := func() string {
+		// exclusion of some package, exact or wildcard
+		ex := names[t.Choose(n)]
+		switch t.Choose(4) {
+		case 1:
+			ex = ex[:indexByte(ex, ':')] + ":*"
+		case 2:
+			ex = "*:" + ex[indexByte(ex, ':')+1:]
+		case 3:
+			ex = ex + "|" + names[t.Choose(n)]
+		}
+		return ex
+	}
+	// exclusion flavour: many dependencies carry exclusions and the same few
+	// exclusion strings recur on different edges (nested under one another),
+	// as they do in real POMs that exclude a logging or XML API everywhere
+	var exclPool []string
+	if t.Bool(1, 5) {
+		for x, m := 0, t.Range(1, 3); x < m; x++ {
+			exclPool = append(exclPool, drawExcl())
+		}
+	}
 	for i := 0; i < n; i++ {
 		p := uni.Pkg{Name: names[i]}
 		for _, c := range trip[i] {
@@ -405,7 +427,11 @@ func Maven(t *kernel.Tape, k Knobs) *uni.Spec {
 			for r := 0; r < nr; r++ {
 				tp := pickTarget(t, i, n)
 				rq := uni.Req{Name: names[tp], Req: mavenReq(t, trip[tp], t.Choose(len(trip[tp])))}
-				switch t.Choose(20) {
+				kind := t.Choose(20)
+				if exclPool != nil && kind >= 12 && kind < 18 {
+					kind = 7
+				}
+				switch kind {
 				case 1:
 					rq.Type = []uni.KV{kv(int(dep.Test), "")}
 				case 2:
@@ -420,15 +446,11 @@ func Maven(t *kernel.Tape, k Knobs) *uni.Spec {
 					ty := []string{"war", "pom", "test-jar", "jar"}[t.Choose(4)]
 					rq.Type = []uni.KV{kv(int(dep.MavenArtifactType), ty)}
 				case 7, 8:
-					// exclusion of some package, exact or wildcard
-					ex := names[t.Choose(n)]
-					switch t.Choose(4) {
-					case 1:
-						ex = ex[:indexByte(ex, ':')] + ":*"
-					case 2:
-						ex = "*:" + ex[indexByte(ex, ':')+1:]
-					case 3:
-						ex = ex + "|" + names[t.Choose(n)]
+					var ex string
+					if exclPool != nil {
+						ex = exclPool[t.Choose(len(exclPool))]
+					} else {
+						ex = drawExcl()
 					}
 					rq.Type = []uni.KV{kv(int(dep.MavenExclusions), ex)}
 				case 9, 10:
